@@ -431,6 +431,11 @@ func provideParameters(
 			debugln("\t\tskipping no-type")
 			continue
 		}
+		if out == unusedTypeCode && !fm.isSynthetic {
+			// Unused parameters are filled automatically: they do not pull a provider
+			// that happens to produce an Unused into the chain
+			continue
+		}
 		debugf("\t\tproviding %s from %s", out, fm)
 		available.Add(out, position, fm)
 	}
